@@ -40,6 +40,7 @@ impl TaskCtx {
         self.log.push(json!({"ev": "ret", "task": self.name, "api": api, "res": res}));
     }
     pub fn spawn<F: Future<Output = ()> + 'static>(&self, tc: &TaskCtx, fut: F) {
+        self.log.push(json!({"ev": "task_start", "task": tc.name}));
         self.spawnq.borrow_mut().push((tc.name.clone(), tc.status.clone(), Box::pin(fut)));
     }
     /// wait until the scenario pokes this task (op "pause" in a program)
